@@ -355,6 +355,8 @@ func (ex *Exec) runAnchors(st *State, when, name string, ord int) (cut bool) {
 				ex.havocHeap(st, pre, ws, targets)
 			case "ghost":
 				env.ghostUpdate(an.Ghost)
+			case "ghostmap":
+				env.ghostMapUpdate(an.GhostMap)
 			case "assert":
 				ex.oblige(st, "assert", an.Props, env.goal(an.E), "assert "+an.Src, token.NoPos)
 				st.assume(env.boolTerm(an.E))
